@@ -288,6 +288,18 @@ Definition leaf_class (v : val) : nat :=
   | _ => O
   end.
 Definition min_list (l : list nat) : nat := fold_right Nat.min 2%nat l.
+(* values whose coarse type name (the collator's first ranking criterion) changes under the round
+   trip: uint8 is ranked as a byte but comes back as an unsigned; Go slices and Go maps come back as
+   Array and Map.  A Set that holds one (at any depth) may come back in another order, so its
+   second text differs: recorded as a known finding, excluded from the round-trip demand. *)
+Fixpoint unstable (v : val) {struct v} : bool :=
+  match v with
+  | VByte _ | VNilSlice | VNilMap => true
+  | VSeq k l => match k with KSlice => true | _ => existsb unstable l end
+  | VMapping k ks vs => match k with MGoMap => true | _ => existsb unstable ks || existsb unstable vs end
+  | VAssoc k x => unstable k || unstable x
+  | _ => false
+  end.
 Fixpoint val_class (v : val) {struct v} : nat :=
   match v with
   | VSeq k l =>
@@ -295,6 +307,7 @@ Fixpoint val_class (v : val) {struct v} : nat :=
       match k with
       | KSlice => Nat.min 1 c
       | KQueue => if (length l <=? 16)%nat then c else O
+      | KSet => if existsb unstable l then O else c
       | _ => c
       end
   | VMapping k ks vs =>
